@@ -238,20 +238,9 @@ func constructLinear[T comparable](d *drv, c *codec[T]) {
 		d.iterF = func() [][2]int { return walkIdxF[T](d, q.Iterator(), c) }
 		d.iterB = func() [][2]int { return walkIdxB[T](d, q.Iterator(), c) }
 		d.links = func() bool {
-			vals, start, end, full, maxSize, size := q.VerifState()
-			if len(vals) != maxSize || start < 0 || start >= maxSize || end < 0 || end >= maxSize {
-				return false
-			}
-			want := end - start
-			if end < start {
-				want = maxSize - start + end
-			} else if end == start {
-				want = 0
-				if full {
-					want = maxSize
-				}
-			}
-			return size == want && (!full || start == end)
+			// representation-independent sanity only (exact ring indices are an implementation detail)
+			vals, _, _, _, maxSize, size := q.VerifState()
+			return len(vals) == maxSize && size >= 0 && size <= maxSize && size == len(q.Values())
 		}
 		d.fingerprint = func() string {
 			// live slots only: a stale slot of the string ring keeps its old string, the
